@@ -209,6 +209,7 @@ def _work(st, batch):
 
 
 ORDER = [
+    "match x:\n case {'a': 1,\n       'b': [y, z],\n       'c': C(q=1),\n       **r}: pass\n case {1: a, 2: b}: pass\n", "match x:\n case C(a,\n        b=1,\n        c=[d,\n           *e]): pass\n",
     "class A(x=1, *b): pass\n", "class A(x=1,\n *b): pass\n", "class A(B, x=1): pass\n", "f(a=1, *b)\nf(**k, c=2)\n", "f(a=1,\n *b,\n **c)\n", "x = {**a, 'b': 1, **c}\n", "y = a if b else c\ny = (a\n if b\n else c)\n",
     "@d1\n@d2(x)\ndef f(a, b=1, *c, d=2, **e) -> r: pass\n", "@d\nclass C: pass\n", "x = f'{a}' f'{b!r:>{w}}'\n", "z = 'é' + f'''é{q}\n{r}'''\n", "x = ('a'\n f'{b}'\n 'c')\n", "x = f'{a:{b}}{c=}'\n",
     "def f(a, b=1): pass\n", "lambda a=1, *, b=2: 0\n", "lambda: 0\n", "match x:\n case {'a': 1, **r}: pass\n case C(a, b=2): pass\n case [a, *b]: pass\n", "with a as b, c as d: pass\n", "with (a, b): pass\n",
